@@ -3,11 +3,12 @@ package main
 // rules_round6.go — rules added after the sixth seeded round (DESIGN.md §9.5).
 
 import (
-	"go/ast"
 	"fmt"
+	"go/ast"
 	"go/constant"
 	"go/token"
 	"go/types"
+	"math/big"
 	"sort"
 	"strings"
 
@@ -330,12 +331,38 @@ func errMaybeNil(st *pathState, v ssa.Value, d int) bool {
 			return false
 		}
 	}
+	// the result of a module function with a single error result: nil iff one of its return paths can yield nil
+	if c, ok := v.(*ssa.Call); ok && d < 3 {
+		if h := c.Call.StaticCallee(); h != nil && inModule(h) && len(h.Blocks) > 0 && h.Signature.Results().Len() == 1 && isErrorType(h.Signature.Results().At(0).Type()) {
+			maybe := false
+			okp := enumPaths(h, nil, nil, nil, func(e pathExit) {
+				ret, isRet := e.Last.(*ssa.Return)
+				if !isRet || len(ret.Results) != 1 || maybe {
+					return
+				}
+				if errMaybeNil(e.State, ret.Results[0], d+1) {
+					maybe = true
+				}
+			})
+			return maybe || !okp
+		}
+	}
 	if _, isMk := v.(*ssa.MakeInterface); isMk {
 		return false
 	}
 	if u, ok := v.(*ssa.UnOp); ok {
 		if _, isG := u.X.(*ssa.Global); isG {
 			return false // a package-level sentinel (var ErrX = errors.New(...)): never nil
+		}
+		// an element of a package-level table of sentinels that only its initialiser assigns
+		if ia, isIA := u.X.(*ssa.IndexAddr); isIA {
+			for _, root := range provenance(ia.X, provOpts{}) {
+				if l, isL := root.(*ssa.UnOp); isL {
+					if g, isG := l.X.(*ssa.Global); isG && frozenGlobal(g) {
+						return false
+					}
+				}
+			}
 		}
 		// a result slot spilled because of a defer: `*slot = val; rundefers; t = *slot; return t`
 		if al, isAl := u.X.(*ssa.Alloc); isAl && d < 4 {
@@ -361,10 +388,14 @@ func errMaybeNil(st *pathState, v ssa.Value, d int) bool {
 // result and dereference it later (a nil Channel in the table panics in Find / at the first request).
 // errors.Wrapf(err, ...) with err == nil is the classic way to get there.
 func ruleNoNilResultWithNilError(w *World, r *Report, rule string, entries []*ssa.Function) {
+	ruleNoNilResultWithNilErrorMsg(w, r, rule, entries, 3, "the caller takes the nil for a parsed object — a malformed definition is accepted and crashes later instead of being a configuration error")
+}
+
+func ruleNoNilResultWithNilErrorMsg(w *World, r *Report, rule string, entries []*ssa.Function, depth int, consequence string) {
 	seen := map[*ssa.Function]bool{}
 	var cone []*ssa.Function
 	for _, e := range entries {
-		for _, f := range staticCone(e, 3) {
+		for _, f := range staticCone(e, depth) {
 			if !seen[f] {
 				seen[f] = true
 				cone = append(cone, f)
@@ -395,7 +426,7 @@ func ruleNoNilResultWithNilError(w *World, r *Report, rule string, entries []*ss
 				return
 			}
 			if errMaybeNil(e.State, ret.Results[1], 0) {
-				bad = fmt.Sprintf("%s: returns a nil result together with an error that can be nil on this path (errors.Wrap*/WithStack of a nil error is nil): the caller takes the nil for a parsed object — a malformed definition is accepted and crashes later instead of being a configuration error", w.Pos(ret.Pos()))
+				bad = fmt.Sprintf("%s: returns a nil result together with an error that can be nil on this path (errors.Wrap*/WithStack of a nil error is nil): %s", w.Pos(ret.Pos()), consequence)
 			}
 		})
 		if !okp {
@@ -1653,9 +1684,11 @@ func ruleHeaderListElementsTrimmed(w *World, r *Report, rule string) {
 }
 
 // c16NoRoundIsSkipped: R16.10 — "after that session is lost the next local connection transparently establishes
-// a new one". In Upstreams.Connect, whenever the reuse test says there is no usable session, the round over the
-// upstreams (open) is actually run before Connect returns: no path skips it (a hold-off after a failed round
-// turns away exactly the connection that would have found the server back).
+// a new one". In Upstreams.Connect, whenever the LAST test of the shared connection on a path says there is no
+// usable session, the round over the upstreams (open) is actually run before Connect returns: no path skips it
+// (a hold-off after a failed round turns away exactly the connection that would have found the server back).
+// The test may live in Connect or in a helper (`ensureOpen`), and may be made twice (double-checked locking: the
+// test repeated under the lock is the one that counts).
 func c16NoRoundIsSkipped(w *World, r *Report, uc, openM *types.Func) {
 	rule := "R16.10"
 	fn := w.SSAFunc(uc)
@@ -1665,105 +1698,145 @@ func c16NoRoundIsSkipped(w *World, r *Report, uc, openM *types.Func) {
 		return
 	}
 	connF := fieldOf(w.Named("internal/client/upstream", "Upstreams"), "connection")
-	// calls that (transitively, depth 2) run open; a helper counts only if open is called on every one of its paths
-	runsOpenAlways := map[*ssa.Function]bool{}
-	for _, g := range staticCone(fn, 2) {
-		if g == fn {
-			continue
+	unusableFact := func(v ssa.Value, t bool) (isTest, unusable bool) {
+		if x, eqNil, ok := nilTest(v); ok && isLoadOfField(x, connF) {
+			return true, t == eqNil
 		}
-		all, n := true, 0
-		okp := enumPaths(g, nil, func(in ssa.Instruction) bool {
-			c, ok := in.(ssa.CallInstruction)
-			return ok && sCallee(c) == openM
-		}, nil, func(e pathExit) {
-			if _, isRet := e.Last.(*ssa.Return); !isRet {
-				return
-			}
-			n++
-			if len(e.State.Events) == 0 {
-				all = false
-			}
-		})
-		if okp && all && n > 0 {
-			runsOpenAlways[g] = true
-		}
-	}
-	isOpen := func(in ssa.Instruction) bool {
-		c, ok := in.(ssa.CallInstruction)
-		if !ok {
-			return false
-		}
-		if sCallee(c) == openM {
-			return true
-		}
-		return runsOpenAlways[c.Common().StaticCallee()]
-	}
-	bad := ""
-	nneed := 0
-	okp := enumPaths(fn, nil, isOpen, nil, func(e pathExit) {
-		if _, isRet := e.Last.(*ssa.Return); !isRet || bad != "" {
-			return
-		}
-		// no usable session on this path?
-		need := false
-		for v, t := range e.State.Facts {
-			if x, eqNil, ok := nilTest(v); ok && t == eqNil && isLoadOfField(x, connF) {
-				need = true
-			}
-			if c, ok := v.(*ssa.Call); ok && t && c.Call.IsInvoke() && c.Call.Method.Name() == "Closed" {
-				for _, root := range provenance(c.Call.Value, provOpts{}) {
-					if isLoadOfField(root, connF) {
-						need = true
-					}
+		if c, ok := v.(*ssa.Call); ok && c.Call.IsInvoke() && c.Call.Method.Name() == "Closed" {
+			for _, root := range provenance(c.Call.Value, provOpts{}) {
+				if isLoadOfField(root, connF) {
+					return true, t
 				}
+			}
+		}
+		return false, false
+	}
+	// does the last test of the connection on this path say "no usable session"?
+	needAt := func(e pathExit) bool {
+		posOf := func(v ssa.Value) int {
+			in, ok := v.(ssa.Instruction)
+			if !ok {
+				return -1
+			}
+			p := -1
+			for i, b := range e.State.Blocks {
+				if b == in.Block() {
+					p = i
+				}
+			}
+			return p*1000 + instrIndex(in)
+		}
+		best, need := -1, false
+		for v, t := range e.State.Facts {
+			if isTest, un := unusableFact(v, t); isTest {
+				if p := posOf(v); p > best {
+					best, need = p, un
+				}
+				continue
 			}
 			// the test inside a predicate helper
 			if hc, ok := v.(*ssa.Call); ok {
-				if h := hc.Call.StaticCallee(); h != nil && inModule(h) {
-					if predicateHelperImplies(h, t, func(facts map[ssa.Value]bool) bool {
+				if h := hc.Call.StaticCallee(); h != nil && inModule(h) && len(h.Blocks) > 0 {
+					touches := false
+					allInstrs(h, func(in ssa.Instruction) {
+						if val, ok := in.(ssa.Value); ok && isLoadOfField(val, connF) {
+							touches = true
+						}
+					})
+					if !touches {
+						continue
+					}
+					un := predicateHelperImplies(h, t, func(facts map[ssa.Value]bool) bool {
 						for v2, t2 := range facts {
-							if x, eqNil, ok := nilTest(v2); ok && t2 == eqNil && isLoadOfField(x, connF) {
-								return true
-							}
-							if c2, ok := v2.(*ssa.Call); ok && t2 && c2.Call.IsInvoke() && c2.Call.Method.Name() == "Closed" {
+							if isTest, u2 := unusableFact(v2, t2); isTest && u2 {
 								return true
 							}
 						}
 						return false
-					}) {
-						need = true
+					})
+					if p := posOf(v); p > best {
+						best, need = p, un
 					}
 				}
 			}
 		}
-		if !need {
-			return
+		return need
+	}
+	// per function: on every return path whose last test says "unusable", open (or something that always runs it) ran
+	var analyse func(g *ssa.Function, depth int) (bad string, nneed int, opens bool, ok bool)
+	memo := map[*ssa.Function][4]interface{}{}
+	analyse = func(g *ssa.Function, depth int) (string, int, bool, bool) {
+		if m, have := memo[g]; have {
+			return m[0].(string), m[1].(int), m[2].(bool), m[3].(bool)
 		}
-		nneed++
-		if len(e.State.Events) == 0 {
-			bad = fmt.Sprintf("Connect can return on a path where no usable session exists and the round over the upstreams was not run (e.g. a hold-off after an earlier failure): a local connection is turned away although a server may be reachable again — the client does not re-establish the session 'transparently', and with connections arriving often enough, never")
-		}
-	})
-	// helpers that run open only on some of their paths are the same skip one level down
-	for _, g := range staticCone(fn, 2) {
-		if g == fn || runsOpenAlways[g] {
-			continue
-		}
-		calls := false
+		handled := map[ssa.Instruction]bool{} // calls that take care of the round themselves
+		opens := false
 		for _, c := range callsIn(g) {
+			ci := c.(ssa.Instruction)
 			if sCallee(c) == openM {
-				calls = true
+				handled[ci] = true
+				opens = true
+				continue
+			}
+			sc := c.Common().StaticCallee()
+			if sc == nil || !inModule(sc) || sc == g || depth >= 2 {
+				continue
+			}
+			if _, isGo := c.(*ssa.Go); isGo {
+				continue
+			}
+			hb, hn, ho, hok := analyse(sc, depth+1)
+			if ho && hok && hb == "" {
+				// the helper runs the round on all its paths (hn == 0: no test inside) or on all paths of its own
+				// that find no usable session
+				handled[ci] = true
+				opens = true
+				_ = hn
+			} else if ho && hb != "" {
+				memo[g] = [4]interface{}{hb, 0, true, true}
+				return hb, 0, true, true
 			}
 		}
-		if calls && bad == "" {
-			bad = fmt.Sprintf("%s: %s runs the round over the upstreams only on some of its paths: Connect can come back without having tried although no usable session exists", w.Pos(g.Pos()), ssaFuncKey(g))
-		}
+		bad := ""
+		nneed := 0
+		okp := enumPaths(g, nil, func(in ssa.Instruction) bool { return handled[in] }, nil, func(e pathExit) {
+			if _, isRet := e.Last.(*ssa.Return); !isRet || bad != "" {
+				return
+			}
+			tests := false
+			for v, t := range e.State.Facts {
+				if isTest, _ := unusableFact(v, t); isTest {
+					tests = true
+				}
+			}
+			if g != fn && !tests {
+				// a helper without a test of its own: it must run the round on every path if it runs it at all
+				if opens && len(e.State.Events) == 0 {
+					bad = fmt.Sprintf("%s: %s runs the round over the upstreams only on some of its paths, and not depending on whether a usable session exists: Connect can come back without having tried although no usable session exists", w.Pos(g.Pos()), ssaFuncKey(g))
+				}
+				return
+			}
+			if !needAt(e) {
+				return
+			}
+			nneed++
+			if len(e.State.Events) == 0 {
+				bad = fmt.Sprintf("%s can return on a path where the last test found no usable session and the round over the upstreams was not run (e.g. a hold-off after an earlier failure): a local connection is turned away although a server may be reachable again — the client does not re-establish the session 'transparently', and with connections arriving often enough, never", ssaFuncKey(g))
+			}
+		})
+		memo[g] = [4]interface{}{bad, nneed, opens, okp}
+		return bad, nneed, opens, okp
 	}
+	bad, nneed, opens, okp := analyse(fn, 0)
 	if !okp {
 		r.Undecided(rule, key, w.Pos(fn.Pos()), "path budget exceeded")
 		return
 	}
-	r.Check(bad == "", rule, key, w.Pos(fn.Pos()), fmt.Sprintf("on all %d path(s) without a usable session the round over the upstreams is run", nneed), bad)
+	if !opens {
+		r.Violate(rule, key, w.Pos(fn.Pos()), "Connect never runs the round over the upstreams")
+		return
+	}
+	r.Check(bad == "", rule, key, w.Pos(fn.Pos()), fmt.Sprintf("wherever the last test of the shared connection finds no usable session (%d path(s) in Connect), the round over the upstreams is run", nneed), bad)
 }
 
 // c18DnsServerStartKeepsTls: R18.9 — a DNS endpoint written "+tls" is DNS over TLS because miekg's ListenAndServe
@@ -1843,4 +1916,1307 @@ func c18DnsServerStartKeepsTls(w *World, r *Report) {
 	}
 	r.Check(tlsStore > 0, rule, key, actPos, fmt.Sprintf("the server is activated on a listener that can be a TLS listener (%d store(s) from crypto/tls)", tlsStore),
 		fmt.Sprintf("the DNS server is started with ActivateAndServe on a listener bound by the caller (%s), and no listener handed to it comes from crypto/tls: ActivateAndServe ignores Net \"tcp-tls\" and TLSConfig, so an endpoint configured dns+tcp+tls answers clear-text DNS over TCP", plainStore))
+}
+
+// c04TlsConfigNeverNilOnSuccess: R04.13 — callers of a certificate manager test only the error: `(nil, nil)` from
+// GetTlsConfig makes an endpoint configured for TLS skip its TLS step (the stdio server wraps the carrier only
+// `if tlsConfig != nil`) or dereference nil. Every return of a nil configuration carries a non-nil error.
+func c04TlsConfigNeverNilOnSuccess(w *World, r *Report, rule string) {
+	ti := w.Interface("internal/util/cert", "TlsConfig")
+	if ti == nil {
+		r.Undecided(rule, "anchor", "-", "anchor unresolved: cert.TlsConfig")
+		return
+	}
+	var entries []*ssa.Function
+	for _, n := range w.Implementers(ti) {
+		if m := methodOf(n, "GetTlsConfig"); m != nil {
+			if fn := w.SSAFunc(m); fn != nil && inModule(fn) {
+				entries = append(entries, fn)
+			}
+		}
+	}
+	sort.Slice(entries, func(i, j int) bool { return entries[i].Pos() < entries[j].Pos() })
+	if len(entries) == 0 {
+		r.Undecided(rule, "anchor", "-", "no GetTlsConfig implementation found")
+		return
+	}
+	ruleNoNilResultWithNilErrorMsg(w, r, rule, entries, 0, "the callers test only the error — an endpoint configured for TLS then skips its TLS step (`if tlsConfig != nil`) and completes a clear-text session that it reports as secure, or dereferences nil")
+}
+
+// c05WebsocketTlsDialHasManagerConfig: R05.14 — gorilla's Dialer performs a TLS handshake for every "wss" URL, with
+// TLSClientConfig if there is one and with an EMPTY tls.Config (system roots, no client certificate, no
+// --insecure) if it is nil. The carrier's `secure` verdict — the boolean that gates fetching the manager's
+// configuration and that is handed to NewClientConnection — is what decides whether a configuration is there.
+// So wherever the scheme is classified (in Connect, or in a helper returning the dial scheme and the verdict):
+// every path with the verdict false has made sure the URL is not a "wss" one — it set the scheme to "ws", or it
+// compared the scheme with "wss" and took the false edge.
+func c05WebsocketTlsDialHasManagerConfig(w *World, r *Report) {
+	rule := "R05.14"
+	ncc := w.Func("internal/socketace", "NewClientConnection")
+	n := 0
+	isSchemeAddr := func(v ssa.Value) bool {
+		fa, ok := v.(*ssa.FieldAddr)
+		if !ok {
+			return false
+		}
+		fv := fieldVarOf(fa)
+		return fv != nil && fv.Name() == "Scheme" && fv.Pkg() != nil && fv.Pkg().Path() == "net/url"
+	}
+	schemeLike := func(fn *ssa.Function, v ssa.Value) bool {
+		for _, root := range provenance(v, provOpts{}) {
+			if u, isU := root.(*ssa.UnOp); isU && isSchemeAddr(u.X) {
+				return true
+			}
+			if p, isP := root.(*ssa.Parameter); isP && p.Parent() == fn {
+				if b, ok := p.Type().Underlying().(*types.Basic); ok && b.Info()&types.IsString != 0 {
+					return true
+				}
+			}
+		}
+		return false
+	}
+	excludesWss := func(fn *ssa.Function, st *pathState) bool {
+		for v, t := range st.Facts {
+			b, ok := v.(*ssa.BinOp)
+			if !ok || b.Op != token.EQL || t {
+				continue
+			}
+			for _, pair := range [][2]ssa.Value{{b.X, b.Y}, {b.Y, b.X}} {
+				if s, isC := constStrVal(pair[1]); isC && s == "wss" && schemeLike(fn, pair[0]) {
+					return true
+				}
+			}
+		}
+		return false
+	}
+	const consequence = ": gorilla dials wss:// with an empty tls.Config then — the system trust store instead of the configured CA, no client certificate, --insecure ignored: a server of any system-trusted authority is accepted and the one of the configured private CA is refused"
+	for _, fn := range sortedFuncs(allModuleFuncs(w, w.SSA())) {
+		var dial ssa.CallInstruction
+		for _, c := range callsIn(fn) {
+			f := sCallee(c)
+			if f != nil && f.Pkg() != nil && strings.HasSuffix(f.Pkg().Path(), "gorilla/websocket") && (f.Name() == "Dial" || f.Name() == "DialContext") && f.Type().(*types.Signature).Recv() != nil {
+				dial = c
+			}
+		}
+		if dial == nil {
+			continue
+		}
+		n++
+		key := "call:websocket.Dialer.Dial@" + ssaFuncKey(fn)
+		pos := w.Pos(dial.Pos())
+		// the verdict: the boolean this function hands to NewClientConnection
+		var secure ssa.Value
+		for _, c := range callsIn(fn) {
+			if sCallee(c) != ncc {
+				continue
+			}
+			for _, a := range c.Common().Args {
+				if b, ok := a.Type().Underlying().(*types.Basic); ok && b.Kind() == types.Bool {
+					secure = a
+				}
+			}
+		}
+		// ... or hands to a helper that passes it on to NewClientConnection
+		if secure == nil {
+			for _, c := range callsIn(fn) {
+				h := c.Common().StaticCallee()
+				if h == nil || !inModule(h) || len(h.Blocks) == 0 {
+					continue
+				}
+				for _, c2 := range callsIn(h) {
+					if sCallee(c2) != ncc {
+						continue
+					}
+					for _, a := range c2.Common().Args {
+						if b, ok := a.Type().Underlying().(*types.Basic); !ok || b.Kind() != types.Bool {
+							continue
+						}
+						for _, root := range provenance(a, provOpts{}) {
+							if pp, isP := root.(*ssa.Parameter); isP {
+								if idx := paramIndex(h, pp); idx >= 0 && idx < len(c.Common().Args) {
+									secure = c.Common().Args[idx]
+								}
+							}
+						}
+					}
+				}
+			}
+		}
+		if secure == nil {
+			r.Undecided(rule, key, pos, "the function that dials the websocket does not hand a secure verdict to NewClientConnection (idiom not recognised)")
+			continue
+		}
+		// (a) the verdict comes out of a classification helper together with the dial scheme
+		if ex, ok := secure.(*ssa.Extract); ok {
+			if hc, ok := ex.Tuple.(*ssa.Call); ok {
+				if h := hc.Call.StaticCallee(); h != nil && inModule(h) && len(h.Blocks) > 0 {
+					bad := ""
+					nf := 0
+					okp := enumPaths(h, nil, nil, nil, func(e pathExit) {
+						ret, isRet := e.Last.(*ssa.Return)
+						if !isRet || bad != "" || ex.Index >= len(ret.Results) {
+							return
+						}
+						verdict := e.State.Resolve(ret.Results[ex.Index])
+						if b, isC := constBool(verdict); isC && b {
+							return
+						}
+						nf++
+						for _, res := range ret.Results {
+							if s, isC := constStrVal(e.State.Resolve(res)); isC && s == "ws" {
+								return
+							}
+						}
+						if excludesWss(h, e.State) {
+							return
+						}
+						bad = fmt.Sprintf("%s: %s can answer 'not secure' on a path that has neither set the dial scheme to \"ws\" nor excluded \"wss\"", w.Pos(ret.Pos()), ssaFuncKey(h))
+					})
+					if !okp {
+						r.Undecided(rule, key, pos, "path budget exceeded")
+						continue
+					}
+					r.Check(bad == "" && nf > 0, rule, key, pos, fmt.Sprintf("the scheme classifier %s answers 'not secure' on %d path(s), each with the scheme known not to be wss", ssaFuncKey(h), nf), bad+mapStr(nf == 0 && bad == "", "the classifier never answers 'not secure' (idiom not recognised)")+consequence)
+					continue
+				}
+			}
+		}
+		// (b) classified in this function
+		isSchemeStore := func(in ssa.Instruction) bool {
+			st, ok := in.(*ssa.Store)
+			return ok && isSchemeAddr(st.Addr)
+		}
+		bad := ""
+		npaths, nplain := 0, 0
+		undec := ""
+		okp := enumPaths(fn, nil, isSchemeStore, func(in ssa.Instruction) bool { return in == dial.(ssa.Instruction) }, func(e pathExit) {
+			if e.Stop == nil || bad != "" {
+				return
+			}
+			npaths++
+			verdict := e.State.Resolve(secure)
+			b, isC := constBool(verdict)
+			if isC && b {
+				return
+			}
+			if !isC {
+				if t, known := e.State.Truth(verdict); known {
+					if t {
+						return
+					}
+				} else {
+					undec = "the secure verdict is not a constant on a path to Dial: " + describeValue(w, verdict)
+					return
+				}
+			}
+			nplain++
+			if k := len(e.State.Events); k > 0 {
+				last := e.State.Events[k-1].(*ssa.Store)
+				if s, isS := constStrVal(e.State.Resolve(last.Val)); isS && s == "ws" {
+					return
+				}
+				bad = fmt.Sprintf("%s: the URL scheme was last set to %s on a path that reaches Dial with the verdict 'not secure'", w.Pos(last.Pos()), describeValue(w, last.Val))
+				return
+			}
+			if excludesWss(fn, e.State) {
+				return
+			}
+			bad = "a path reaches Dial with the verdict 'not secure' (no TLS configuration) without having excluded the scheme \"wss\""
+		})
+		if !okp {
+			r.Undecided(rule, key, pos, "path budget exceeded")
+			continue
+		}
+		if undec != "" && bad == "" {
+			r.Undecided(rule, key, pos, undec)
+			continue
+		}
+		r.Check(bad == "", rule, key, pos, fmt.Sprintf("%d path(s) to Dial, %d with the verdict 'not secure', each of those with the scheme known not to be wss", npaths, nplain), bad+consequence)
+	}
+	if n == 0 {
+		r.Hold(rule, "call:websocket.Dialer.Dial", "-", "the module dials no websocket")
+	}
+}
+
+func sortedFuncs(m map[*ssa.Function]bool) []*ssa.Function {
+	var out []*ssa.Function
+	for f := range m {
+		out = append(out, f)
+	}
+	sort.Slice(out, func(i, j int) bool {
+		if out[i].Pos() != out[j].Pos() {
+			return out[i].Pos() < out[j].Pos()
+		}
+		return out[i].String() < out[j].String()
+	})
+	return out
+}
+
+// c06NoPanicOnPeerWriteFault: R06.7 — the handshake runs on a per-connection goroutine with no recover, so an
+// explicit panic in package socketace takes the whole process down. The panics that exist guard writes to an
+// in-memory buffer (which cannot fail). Each explicit panic must be of that kind: it is dominated by the failure
+// of a write whose destination — parameters followed to every caller — is always a bytes.Buffer / strings.Builder
+// created in the module, never a writer that can be the peer's connection (a peer that hangs up early would
+// otherwise crash the server with one oversized refusal).
+func c06NoPanicOnPeerWriteFault(w *World, r *Report) {
+	rule := "R06.7"
+	var cone []*ssa.Function
+	for _, f := range sortedFuncs(allModuleFuncs(w, w.SSA())) {
+		cone = append(cone, f)
+	}
+	writerIface := func(t types.Type) bool {
+		it, ok := t.Underlying().(*types.Interface)
+		if !ok {
+			return false
+		}
+		for i := 0; i < it.NumMethods(); i++ {
+			if it.Method(i).Name() == "Write" {
+				return true
+			}
+		}
+		return false
+	}
+	memBuffer := func(v ssa.Value) bool {
+		t := v.Type()
+		if p, ok := t.Underlying().(*types.Pointer); ok {
+			t = p.Elem()
+		}
+		n, ok := t.(*types.Named)
+		if !ok || n.Obj().Pkg() == nil {
+			return false
+		}
+		q := n.Obj().Pkg().Path() + "." + n.Obj().Name()
+		return q == "bytes.Buffer" || q == "strings.Builder"
+	}
+	var inMemory func(v ssa.Value, depth int) (bool, string)
+	inMemory = func(v ssa.Value, depth int) (bool, string) {
+		if depth > 3 {
+			return false, "origin too deep"
+		}
+		roots := provWithCallers(v, cone, 0)
+		if len(roots) == 0 {
+			return false, "no origin"
+		}
+		for _, root := range roots {
+			switch x := root.(type) {
+			case *ssa.MakeInterface:
+				if ok, why := inMemory(x.X, depth+1); !ok {
+					return false, why
+				}
+				continue
+			case *ssa.Alloc:
+				if memBuffer(x) {
+					continue
+				}
+			case *ssa.Call:
+				if memBuffer(x) {
+					if f := sCallee(x); f != nil && f.Pkg() != nil && (f.Pkg().Path() == "bytes" || f.Pkg().Path() == "strings") {
+						continue
+					}
+				}
+			}
+			if memBuffer(root) {
+				if _, isParam := root.(*ssa.Parameter); !isParam {
+					continue
+				}
+			}
+			return false, describeValue(w, root)
+		}
+		return true, ""
+	}
+	n := 0
+	for _, fn := range cone {
+		if fn.Pkg == nil || fn.Pkg.Pkg.Path() != modPath+"/internal/socketace" {
+			if fn.Parent() == nil || fn.Parent().Pkg == nil || fn.Parent().Pkg.Pkg.Path() != modPath+"/internal/socketace" {
+				continue
+			}
+		}
+		k := 0
+		for _, b := range fn.Blocks {
+			for _, in := range b.Instrs {
+				pn, ok := in.(*ssa.Panic)
+				if !ok {
+					continue
+				}
+				n++
+				k++
+				key := fmt.Sprintf("panic@%s#%d", ssaFuncKey(fn), k)
+				// the failed write that leads here
+				var dest ssa.Value
+				okDom := dominatedByCond(fn, pn, func(v ssa.Value) bool {
+					bo, ok := v.(*ssa.BinOp)
+					if !ok || bo.Op != token.NEQ || !isErrorType(bo.X.Type()) {
+						return false
+					}
+					for _, root := range provenance(bo.X, provOpts{}) {
+						var call *ssa.Call
+						switch x := root.(type) {
+						case *ssa.Call:
+							call = x
+						case *ssa.Extract:
+							call, _ = x.Tuple.(*ssa.Call)
+						}
+						if call == nil {
+							continue
+						}
+						if call.Call.IsInvoke() && writerIface(call.Call.Value.Type()) {
+							dest = call.Call.Value
+						}
+						for _, a := range call.Call.Args {
+							if writerIface(a.Type()) || memBuffer(a) {
+								dest = a
+							}
+						}
+					}
+					return dest != nil
+				}, true)
+				if !okDom || dest == nil {
+					r.Violate(rule, key, w.Pos(pn.Pos()), "an explicit panic in the handshake code that is not the guard of a write to an in-memory buffer: nothing between the socket and this code recovers — whatever leads here ends the process for every peer")
+					continue
+				}
+				okm, why := inMemory(dest, 0)
+				r.Check(okm, rule, key, w.Pos(pn.Pos()), "the panic guards a write to an in-memory buffer (bytes.Buffer / strings.Builder at every call site): it cannot happen",
+					fmt.Sprintf("the panic guards a write whose destination can be %s — a writer on the peer's connection: a peer that hangs up while an oversized answer is being written makes the write fail, and the panic, on a goroutine without recover, ends the process for every peer", why))
+			}
+		}
+	}
+	if n == 0 {
+		r.Hold(rule, "panic:none", "-", "no explicit panic in package socketace")
+	}
+}
+
+// c08TablesCompleteBeforeUse: R08.12 — codecs are used from many goroutines at once (one DNS server, many sessions).
+// A package-level table that a function in the cone of some Encode/Decode writes is safe only if it is complete
+// before any use: (a) the writer also runs from a package initialiser (then the lazy path is dead code), or (b) it
+// runs under sync.Once.Do and every read of the table in the codec cone is dominated by that Do call (a test of
+// the table outside the Once sees it half-built: wrong symbols, or a fatal concurrent map access).
+func c08TablesCompleteBeforeUse(w *World, r *Report) {
+	rule := "R08.12"
+	p := w.Pkg("internal/util/enc")
+	prog := w.SSA()
+	if p == nil || prog.Package(p.Types) == nil {
+		r.Undecided(rule, "anchor", "-", "anchor unresolved: package enc")
+		return
+	}
+	sp := prog.Package(p.Types)
+	// reachability that also follows function values (closures handed to sync.Once.Do, method values)
+	reach := func(roots []*ssa.Function) map[*ssa.Function]bool {
+		seen := map[*ssa.Function]bool{}
+		st := append([]*ssa.Function(nil), roots...)
+		for len(st) > 0 {
+			f := st[len(st)-1]
+			st = st[:len(st)-1]
+			if f == nil || seen[f] || !inModule(f) {
+				continue
+			}
+			seen[f] = true
+			allInstrs(f, func(in ssa.Instruction) {
+				if c, ok := in.(ssa.CallInstruction); ok {
+					if sc := c.Common().StaticCallee(); sc != nil {
+						st = append(st, sc)
+					}
+				}
+				for _, op := range in.Operands(nil) {
+					switch x := (*op).(type) {
+					case *ssa.Function:
+						st = append(st, x)
+					case *ssa.MakeClosure:
+						if cf, ok := x.Fn.(*ssa.Function); ok {
+							st = append(st, cf)
+						}
+					}
+				}
+			})
+		}
+		return seen
+	}
+	var inits, codecs []*ssa.Function
+	for _, f := range sortedFuncs(allModuleFuncs(w, prog)) {
+		if f.Pkg != sp {
+			continue
+		}
+		if f.Name() == "init" || strings.HasPrefix(f.Name(), "init#") {
+			inits = append(inits, f)
+		}
+		if (f.Name() == "Encode" || f.Name() == "Decode") && f.Signature.Recv() != nil {
+			codecs = append(codecs, f)
+		}
+	}
+	fromInit := reach(inits)
+	fromCodec := reach(codecs)
+	// a global of package enc written by fn?
+	writes := func(fn *ssa.Function) []*ssa.Global {
+		var out []*ssa.Global
+		add := func(g *ssa.Global) {
+			for _, x := range out {
+				if x == g {
+					return
+				}
+			}
+			out = append(out, g)
+		}
+		globalOf := func(v ssa.Value) *ssa.Global {
+			for _, root := range provenance(v, provOpts{}) {
+				if g, ok := root.(*ssa.Global); ok && g.Pkg == sp {
+					return g
+				}
+				if u, ok := root.(*ssa.UnOp); ok && u.Op == token.MUL {
+					if g, ok := u.X.(*ssa.Global); ok && g.Pkg == sp {
+						return g
+					}
+				}
+			}
+			return nil
+		}
+		allInstrs(fn, func(in ssa.Instruction) {
+			switch x := in.(type) {
+			case *ssa.Store:
+				if g, ok := x.Addr.(*ssa.Global); ok && g.Pkg == sp {
+					add(g)
+				}
+				if ia, ok := x.Addr.(*ssa.IndexAddr); ok {
+					if g := globalOf(ia.X); g != nil {
+						add(g)
+					}
+				}
+			case *ssa.MapUpdate:
+				if g := globalOf(x.Map); g != nil {
+					add(g)
+				}
+			}
+		})
+		return out
+	}
+	isOnceDoOf := func(c ssa.CallInstruction, writer *ssa.Function) bool {
+		f := sCallee(c)
+		if f == nil || f.Name() != "Do" || f.Pkg() == nil || f.Pkg().Path() != "sync" {
+			return false
+		}
+		for _, a := range c.Common().Args {
+			switch x := a.(type) {
+			case *ssa.Function:
+				if x == writer {
+					return true
+				}
+			case *ssa.MakeClosure:
+				if x.Fn == ssa.Value(writer) {
+					return true
+				}
+			}
+		}
+		return false
+	}
+	n := 0
+	for _, fn := range sortedFuncs(fromCodec) {
+		if fn.Pkg != sp && (fn.Parent() == nil || fn.Parent().Pkg != sp) {
+			continue
+		}
+		if fn.Name() == "init" || strings.HasPrefix(fn.Name(), "init#") {
+			continue
+		}
+		for _, g := range writes(fn) {
+			n++
+			key := fmt.Sprintf("global:%s@%s", g.Name(), ssaFuncKey(fn))
+			pos := w.Pos(fn.Pos())
+			if fromInit[fn] {
+				r.Hold(rule, key, pos, "the table is built by a package initialiser too: it is complete before the first use, the lazy path never runs")
+				continue
+			}
+			// (b) only under Once.Do, and every read in the codec cone after the Do
+			bad := ""
+			underOnce := false
+			for _, h := range sortedFuncs(fromCodec) {
+				for _, c := range callsIn(h) {
+					if isOnceDoOf(c, fn) {
+						underOnce = true
+					}
+					if c.Common().StaticCallee() == fn {
+						bad = fmt.Sprintf("%s writes the table %s and is called directly (%s), not only through sync.Once", ssaFuncKey(fn), g.Name(), w.Pos(c.Pos()))
+					}
+				}
+			}
+			if !underOnce && bad == "" {
+				bad = fmt.Sprintf("%s writes the package-level table %s on first use, without a package initialiser and without sync.Once", ssaFuncKey(fn), g.Name())
+			}
+			if bad == "" {
+				for _, h := range sortedFuncs(fromCodec) {
+					if h == fn {
+						continue
+					}
+					var does []ssa.Instruction
+					for _, c := range callsIn(h) {
+						if isOnceDoOf(c, fn) {
+							does = append(does, c.(ssa.Instruction))
+						}
+						// a helper whose every path runs the Do
+						if sc := c.Common().StaticCallee(); sc != nil && sc != fn {
+							for _, c2 := range callsIn(sc) {
+								if isOnceDoOf(c2, fn) && dominatesAllReturns(sc, c2.(ssa.Instruction).Block()) {
+									does = append(does, c.(ssa.Instruction))
+								}
+							}
+						}
+					}
+					allInstrs(h, func(in ssa.Instruction) {
+						u, ok := in.(*ssa.UnOp)
+						if !ok || u.Op != token.MUL || u.X != ssa.Value(g) || bad != "" {
+							return
+						}
+						dominated := false
+						for _, d := range does {
+							if d.Block() == u.Block() {
+								for _, x := range d.Block().Instrs {
+									if x == d {
+										dominated = true
+										break
+									}
+									if x == ssa.Instruction(u) {
+										break
+									}
+								}
+							} else if d.Block().Dominates(u.Block()) {
+								dominated = true
+							}
+						}
+						if !dominated {
+							bad = fmt.Sprintf("%s: %s is read before (or without) the sync.Once that builds it has run on this path, and no package initialiser builds it: a goroutine that arrives while another one is filling the table sees it half-built — symbols decode to zero, or the runtime aborts with 'concurrent map read and map write'", w.Pos(u.Pos()), g.Name())
+						}
+					})
+				}
+			}
+			r.Check(bad == "", rule, key, pos, "the table is built under sync.Once and only read after the Do", bad)
+		}
+	}
+	if n == 0 {
+		r.Hold(rule, "global:none", "-", "no function in the cone of a codec's Encode/Decode writes a package-level table")
+	}
+}
+
+// c10RecordBuffersAreNeverPadded: R10.15 — the answer carries no length field: every byte of a record after its
+// order tag is payload to the client. A record buffer created with a constant size must therefore be written
+// completely on every path; an element that may stay zero is a NUL the client takes for data (a short last
+// chunk must make a short record — which the packer then refuses, a reported failure — never a padded one).
+func c10RecordBuffersAreNeverPadded(w *World, r *Report) {
+	rule := "R10.15"
+	util := w.Pkg("internal/streams/dns/util")
+	if util == nil {
+		r.Undecided(rule, "anchor", "-", "anchor unresolved: package util")
+		return
+	}
+	sp := w.SSA().Package(util.Types)
+	seen := map[*ssa.Function]bool{}
+	var fns []*ssa.Function
+	for nm, m := range sp.Members {
+		fn, ok := m.(*ssa.Function)
+		if !ok || !strings.HasPrefix(nm, "WrapDnsResponse") {
+			continue
+		}
+		for _, g := range staticCone(fn, 2) {
+			if !seen[g] && inModule(g) && g.Pkg == sp {
+				seen[g] = true
+				fns = append(fns, g)
+			}
+		}
+	}
+	sort.Slice(fns, func(i, j int) bool { return fns[i].Pos() < fns[j].Pos() })
+	n := 0
+	for _, fn := range fns {
+		k := 0
+		allInstrs(fn, func(in ssa.Instruction) {
+			// make([]byte, L) with a constant L: a MakeSlice, or (go/ssa's lowering) new [L]byte sliced whole
+			var ms ssa.Value
+			var L int64
+			switch x := in.(type) {
+			case *ssa.MakeSlice:
+				if v, isC := constIntVal(x.Len); isC && v > 0 {
+					ms, L = x, v
+				}
+			case *ssa.Slice:
+				if al, ok := x.X.(*ssa.Alloc); ok && x.Low == nil {
+					if arr, ok := al.Type().(*types.Pointer).Elem().Underlying().(*types.Array); ok && arr.Len() > 0 {
+						if x.High == nil {
+							ms, L = x, arr.Len()
+						} else if h, isC := constIntVal(x.High); isC && h == arr.Len() {
+							ms, L = x, arr.Len()
+						}
+					}
+				}
+			}
+			if ms == nil {
+				return
+			}
+			if bt, ok := ms.Type().Underlying().(*types.Slice); !ok || !isStringOrBytes(bt) {
+				return
+			}
+			k++
+			n++
+			key := fmt.Sprintf("buffer@%s#%d", ssaFuncKey(fn), k)
+			covered := make([]bool, L)
+			mark := func(a, b int64) {
+				for i := a; i < b && i < L; i++ {
+					if i >= 0 {
+						covered[i] = true
+					}
+				}
+			}
+			// offset of a view of ms: ms itself (0) or ms[a:] with constant a
+			offsetOf := func(v ssa.Value) (int64, bool) {
+				if v == ssa.Value(ms) {
+					return 0, true
+				}
+				if sl, ok := v.(*ssa.Slice); ok && sl.X == ssa.Value(ms) && sl.High == nil {
+					if sl.Low == nil {
+						return 0, true
+					}
+					if a, isC := constIntVal(sl.Low); isC {
+						return a, true
+					}
+				}
+				return 0, false
+			}
+			why := ""
+			allInstrs(fn, func(in2 ssa.Instruction) {
+				switch x := in2.(type) {
+				case *ssa.Store:
+					if ia, ok := x.Addr.(*ssa.IndexAddr); ok && ia.X == ssa.Value(ms) {
+						if i, isC := constIntVal(ia.Index); isC {
+							mark(i, i+1)
+						}
+					}
+				case *ssa.Call:
+					if bi, ok := x.Call.Value.(*ssa.Builtin); ok && bi.Name() == "copy" && len(x.Call.Args) == 2 {
+						if a, ok := offsetOf(x.Call.Args[0]); ok {
+							need := L - a
+							if factsAt(x).entails(linConst(need), lenOf(x.Call.Args[1], 0)) {
+								mark(a, L)
+							} else {
+								why = fmt.Sprintf("%s: copy fills the buffer from offset %d with a source that is not proven to hold the %d bytes that remain", w.Pos(x.Pos()), a, need)
+							}
+						}
+						return
+					}
+					f := sCallee(x)
+					if f != nil && f.Pkg() != nil && f.Pkg().Path() == "encoding/binary" && strings.HasPrefix(f.Name(), "PutUint") {
+						width := map[string]int64{"PutUint16": 2, "PutUint32": 4, "PutUint64": 8}[f.Name()]
+						for _, arg := range x.Call.Args {
+							if a, ok := offsetOf(arg); ok && width > 0 {
+								mark(a, a+width)
+							}
+						}
+					}
+				}
+			})
+			full := true
+			first := int64(-1)
+			for i, c := range covered {
+				if !c {
+					full = false
+					if first < 0 {
+						first = int64(i)
+					}
+				}
+			}
+			// buffers that are only ever extended by append are exact by construction; a buffer none of whose
+			// elements is written explicitly and that is not a record buffer (scratch space) is not this rule's business
+			any := false
+			for _, c := range covered {
+				any = any || c
+			}
+			if !any && why == "" {
+				n--
+				k--
+				return
+			}
+			r.Check(full, rule, key, w.Pos(in.Pos()), fmt.Sprintf("all %d bytes of the buffer are written on every path (tag and, for fixed-size records, a full chunk)", L),
+				fmt.Sprintf("byte %d.. of the %d-byte record buffer may stay zero%s: the record is padded with NUL bytes that the client, which has no length field to go by, hands to the codec as payload — a silently different response instead of a refused record", first, L, mapStr(why != "", " ("+why+")")))
+		})
+	}
+	if n == 0 {
+		r.Undecided(rule, "buffers", "-", "no fixed-size record buffer found in the Wrap* functions (idiom not recognised)")
+	}
+}
+
+// mathRangeOf: the range of the mathematical (unwrapped) value of an integer expression, computed from the value
+// ranges of its leaves (constants, or the full range of the leaf's type). ok=false when not an integer.
+func mathRangeOf(v ssa.Value, depth int) (lo, hi *big.Int, ok bool) {
+	if c, isC := v.(*ssa.Const); isC && c.Value != nil && c.Value.Kind() == constant.Int {
+		if x, exact := constant.Int64Val(constant.ToInt(c.Value)); exact {
+			return big.NewInt(x), big.NewInt(x), true
+		}
+	}
+	tlo, thi, tok := typeRange(v.Type())
+	if !tok {
+		return nil, nil, false
+	}
+	valueRange := func(x ssa.Value) (*big.Int, *big.Int, bool) {
+		// the value of a sub-expression is its mathematical value if that fits its type, else anything in the type
+		l, h, ok := mathRangeOf(x, depth+1)
+		if !ok {
+			return nil, nil, false
+		}
+		xl, xh, xok := typeRange(x.Type())
+		if !xok {
+			return l, h, true
+		}
+		if l.Cmp(xl) < 0 || h.Cmp(xh) > 0 {
+			return xl, xh, true
+		}
+		return l, h, true
+	}
+	if depth > 6 {
+		return tlo, thi, true
+	}
+	switch x := v.(type) {
+	case *ssa.BinOp:
+		al, ah, ok1 := valueRange(x.X)
+		bl, bh, ok2 := valueRange(x.Y)
+		if !ok1 || !ok2 {
+			return tlo, thi, true
+		}
+		switch x.Op {
+		case token.ADD:
+			return new(big.Int).Add(al, bl), new(big.Int).Add(ah, bh), true
+		case token.SUB:
+			return new(big.Int).Sub(al, bh), new(big.Int).Sub(ah, bl), true
+		case token.MUL:
+			c := []*big.Int{new(big.Int).Mul(al, bl), new(big.Int).Mul(al, bh), new(big.Int).Mul(ah, bl), new(big.Int).Mul(ah, bh)}
+			mn, mx := c[0], c[0]
+			for _, y := range c[1:] {
+				if y.Cmp(mn) < 0 {
+					mn = y
+				}
+				if y.Cmp(mx) > 0 {
+					mx = y
+				}
+			}
+			return mn, mx, true
+		case token.SHL:
+			if bl.Sign() >= 0 && bh.IsInt64() && bh.Int64() < 64 && al.Sign() >= 0 {
+				return al, new(big.Int).Lsh(ah, uint(bh.Int64())), true
+			}
+		case token.AND:
+			if bl.Sign() >= 0 && al.Sign() >= 0 {
+				m := ah
+				if bh.Cmp(m) < 0 {
+					m = bh
+				}
+				return big.NewInt(0), m, true
+			}
+		case token.REM:
+			if bl.Sign() > 0 && al.Sign() >= 0 {
+				return big.NewInt(0), new(big.Int).Sub(bh, big.NewInt(1)), true
+			}
+		case token.QUO:
+			if bl.Sign() > 0 && al.Sign() >= 0 {
+				return big.NewInt(0), ah, true
+			}
+		}
+	case *ssa.Convert:
+		if _, _, isInt := typeRange(x.X.Type()); isInt {
+			l, h, ok := valueRange(x.X)
+			if ok && l.Cmp(tlo) >= 0 && h.Cmp(thi) <= 0 {
+				return l, h, true
+			}
+		}
+	case *ssa.ChangeType:
+		return mathRangeOf(x.X, depth+1)
+	}
+	return tlo, thi, true
+}
+
+// ruleNoNarrowArithmeticBeforeWidening: a value that is computed in 8-bit arithmetic and only then converted to a
+// wider integer has wrapped before the conversion (`uint16(hi*36 + lo)` with byte operands). In the decoder of
+// the request header that turns identifiers above 255 into their residue: the peer of session 256+k then drives
+// session k.
+func ruleNoNarrowArithmeticBeforeWidening(w *World, r *Report, rule string, entries []*ssa.Function, consequence string) {
+	seen := map[*ssa.Function]bool{}
+	var cone []*ssa.Function
+	for _, e := range entries {
+		for _, f := range staticCone(e, 2) {
+			if !seen[f] && inModule(f) {
+				seen[f] = true
+				cone = append(cone, f)
+			}
+		}
+	}
+	sort.Slice(cone, func(i, j int) bool { return cone[i].Pos() < cone[j].Pos() })
+	for _, fn := range cone {
+		n := 0
+		var bad []string
+		allInstrs(fn, func(in ssa.Instruction) {
+			cv, ok := in.(*ssa.Convert)
+			if !ok {
+				return
+			}
+			slo, shi, sok := typeRange(cv.X.Type())
+			dlo, dhi, dok := typeRange(cv.Type())
+			if !sok || !dok || (dhi.Cmp(shi) <= 0 && dlo.Cmp(slo) >= 0) {
+				return // not a widening integer conversion
+			}
+			bo, isArith := cv.X.(*ssa.BinOp)
+			if !isArith {
+				return
+			}
+			switch bo.Op {
+			case token.ADD, token.MUL, token.SHL, token.SUB:
+			default:
+				return
+			}
+			n++
+			lo, hi, ok := mathRangeOf(bo, 0)
+			if ok && (lo.Cmp(slo) < 0 || hi.Cmp(shi) > 0) {
+				bad = append(bad, fmt.Sprintf("%s: %s is computed in %s (its mathematical value ranges over %s..%s) and converted to %s afterwards: the wrap happens before the widening", w.Pos(cv.Pos()), describeValue(w, bo), cv.X.Type(), lo, hi, cv.Type()))
+			}
+		})
+		key := "func:" + ssaFuncKey(fn) + "|narrow-arithmetic"
+		sort.Strings(bad)
+		r.Check(len(bad) == 0, rule, key, w.Pos(fn.Pos()), fmt.Sprintf("%d widening conversion(s) of an arithmetic result, none of an expression that can wrap in its narrow type", n), strings.Join(bad, "; ")+consequence)
+	}
+	if len(cone) == 0 {
+		r.Undecided(rule, "cone", "-", "anchor unresolved")
+	}
+}
+
+// c14AcceptFailureClosesCarrier: R14.8 — AcceptConnection owns the carrier it is given: the listeners' accept loops
+// hand it over and forget it. Every return with an error has closed it (directly, or by closing the session
+// connection built on it), except where the error itself says the carrier is closed already — and only that:
+// "the peer went away" (EOF, reset) leaves OUR end open, a socket in CLOSE_WAIT per probe.
+func c14AcceptFailureClosesCarrier(w *World, r *Report) {
+	rule := "R14.8"
+	fn := w.SSAFunc(w.Func("internal/server", "AcceptConnection"))
+	key := "func:server.AcceptConnection|failure-closes-carrier"
+	if fn == nil || len(fn.Params) == 0 {
+		r.Undecided(rule, key, "-", "anchor unresolved")
+		return
+	}
+	conn := fn.Params[0]
+	onCarrier := func(v ssa.Value) bool {
+		for _, root := range provInter(v, 0) {
+			if root == ssa.Value(conn) {
+				return true
+			}
+			// the session connection built on the carrier
+			var call *ssa.Call
+			switch x := root.(type) {
+			case *ssa.Call:
+				call = x
+			case *ssa.Extract:
+				call, _ = x.Tuple.(*ssa.Call)
+			}
+			if call != nil {
+				for _, a := range call.Call.Args {
+					for _, r2 := range provenance(a, provOpts{}) {
+						if r2 == ssa.Value(conn) {
+							return true
+						}
+					}
+				}
+			}
+		}
+		return false
+	}
+	closes := func(in ssa.Instruction) bool {
+		c, ok := in.(ssa.CallInstruction)
+		if !ok {
+			return false
+		}
+		if isCloseOn(w, c, onCarrier) {
+			return true
+		}
+		// a module helper that closes its argument on all paths
+		if sc := c.Common().StaticCallee(); sc != nil && inModule(sc) && len(sc.Blocks) > 0 {
+			for i, a := range c.Common().Args {
+				if !onCarrier(a) || i >= len(sc.Params) {
+					continue
+				}
+				p := sc.Params[i]
+				all, n := true, 0
+				okp := enumPaths(sc, nil, func(in2 ssa.Instruction) bool {
+					c2, ok := in2.(ssa.CallInstruction)
+					return ok && isCloseOn(w, c2, func(v ssa.Value) bool {
+						for _, root := range provenance(v, provOpts{}) {
+							if root == ssa.Value(p) {
+								return true
+							}
+						}
+						return false
+					})
+				}, nil, func(e pathExit) {
+					if _, isRet := e.Last.(*ssa.Return); isRet {
+						n++
+						if len(e.State.Events) == 0 {
+							// nothing to close: the argument is nil on this path
+							for v, t := range e.State.Facts {
+								if x, eqNil, ok := nilTest(v); ok && t == eqNil {
+									for _, root := range provenance(x, provOpts{}) {
+										if root == ssa.Value(p) {
+											return
+										}
+									}
+								}
+							}
+							all = false
+						}
+					}
+				})
+				if okp && all && n > 0 {
+					return true
+				}
+			}
+		}
+		return false
+	}
+	saysClosed := func(v ssa.Value) bool {
+		c, ok := v.(*ssa.Call)
+		if !ok {
+			return false
+		}
+		f := sCallee(c)
+		if f == nil || f.Pkg() == nil || f.Pkg().Path() != "strings" || f.Name() != "Contains" {
+			// errors.Is(err, net.ErrClosed)
+			if f != nil && f.Pkg() != nil && f.Pkg().Path() == "errors" && f.Name() == "Is" && len(c.Call.Args) == 2 {
+				for _, root := range provenance(c.Call.Args[1], provOpts{}) {
+					if u, ok := root.(*ssa.UnOp); ok {
+						if g, ok := u.X.(*ssa.Global); ok && g.Name() == "ErrClosed" {
+							return true
+						}
+					}
+				}
+			}
+			return false
+		}
+		s, isC := constStrVal(c.Call.Args[1])
+		return isC && strings.Contains(s, "closed network connection")
+	}
+	bad := ""
+	nfail := 0
+	okp := enumPaths(fn, nil, closes, nil, func(e pathExit) {
+		ret, isRet := e.Last.(*ssa.Return)
+		if !isRet || len(ret.Results) == 0 || bad != "" {
+			return
+		}
+		if isConstNil(e.State.Resolve(ret.Results[len(ret.Results)-1])) {
+			return
+		}
+		nfail++
+		if len(e.State.Events) > 0 {
+			return
+		}
+		for v, t := range e.State.Facts {
+			if t && saysClosed(v) {
+				return
+			}
+			// no carrier at all
+			if x, eqNil, ok := nilTest(v); ok && t == eqNil && onCarrier(x) {
+				return
+			}
+			if hc, ok := v.(*ssa.Call); ok {
+				if h := hc.Call.StaticCallee(); h != nil && inModule(h) && len(h.Blocks) > 0 {
+					if predicateHelperImplies(h, t, func(facts map[ssa.Value]bool) bool {
+						for v2, t2 := range facts {
+							if t2 && saysClosed(v2) {
+								return true
+							}
+						}
+						return false
+					}) {
+						return
+					}
+				}
+			}
+		}
+		bad = fmt.Sprintf("%s: AcceptConnection returns an error without having closed the carrier, on a path that has not established that the carrier is closed already: the accept loop has forgotten the connection, so the socket stays open (CLOSE_WAIT) for every peer that leaves during the negotiation — one descriptor per port probe or health check", w.Pos(ret.Pos()))
+	})
+	if !okp {
+		r.Undecided(rule, key, w.Pos(fn.Pos()), "path budget exceeded")
+		return
+	}
+	r.Check(bad == "" && nfail > 0, rule, key, w.Pos(fn.Pos()), fmt.Sprintf("%d failing return path(s), each after the carrier was closed or was found closed already", nfail), bad+mapStr(nfail == 0, "no failing return path found (anchors moved?)"))
+}
+
+// c18StartupRunsOncePerServer: R18.10 — the Startup methods consume the transport markers of their configured
+// address: they cut "+tls" off Address.Scheme (and derive `secure` from it) and clear the password in
+// Address.User, in place, before they bind. That is only sound while Startup runs once per server object: a
+// second run on the same object sees a plain scheme and starts a clear-text listener for a +tls address. As long
+// as some Startup rewrites its own address, no call of Startup lies on a loop that keeps the same receiver.
+func c18StartupRunsOncePerServer(w *World, r *Report) {
+	rule := "R18.10"
+	key := "iface:server.Server|startup-once"
+	si := w.Interface("internal/server", "Server")
+	if si == nil {
+		r.Undecided(rule, key, "-", "anchor unresolved: server.Server")
+		return
+	}
+	isURLField := func(fv *types.Var) bool {
+		return fv != nil && fv.Pkg() != nil && fv.Pkg().Path() == "net/url"
+	}
+	// which Startup implementations rewrite their own configured address?
+	var mutating []string
+	startups := map[*types.Func]bool{}
+	for _, n := range w.Implementers(si) {
+		m := methodOf(n, "Startup")
+		if m == nil || startups[m] {
+			continue
+		}
+		startups[m] = true
+		fn := w.SSAFunc(m)
+		if fn == nil || len(fn.Params) == 0 {
+			continue
+		}
+		recv := fn.Params[0]
+		found := ""
+		for _, g := range staticCone(fn, 1) {
+			if g != fn && (len(g.Params) == 0 || g.Signature.Recv() == nil) {
+				continue
+			}
+			base := ssa.Value(recv)
+			if g != fn {
+				base = g.Params[0]
+			}
+			allInstrs(g, func(in ssa.Instruction) {
+				st, ok := in.(*ssa.Store)
+				if !ok || found != "" {
+					return
+				}
+				fa, ok := st.Addr.(*ssa.FieldAddr)
+				if !ok || !isURLField(fieldVarOf(fa)) {
+					return
+				}
+				// the URL is reached from the receiver through field addresses only (not a local copy)
+				x := fa.X
+				for i := 0; i < 6; i++ {
+					if f2, ok := x.(*ssa.FieldAddr); ok {
+						x = f2.X
+						continue
+					}
+					break
+				}
+				if _, isPtr := x.Type().Underlying().(*types.Pointer); !isPtr {
+					return
+				}
+				for _, root := range provenance(x, provOpts{}) {
+					if root == base {
+						found = fmt.Sprintf("%s (%s, field %s)", ssaFuncKey(g), w.Pos(st.Pos()), fieldVarOf(fa).Name())
+					}
+				}
+			})
+		}
+		if found != "" {
+			mutating = append(mutating, found)
+		}
+	}
+	sort.Strings(mutating)
+	if len(mutating) == 0 {
+		r.Hold(rule, key, "-", "no Startup rewrites its own configured address: running it again is harmless")
+		return
+	}
+	var bad []string
+	ncalls := 0
+	for _, fn := range sortedFuncs(allModuleFuncs(w, w.SSA())) {
+		for _, c := range callsIn(fn) {
+			cc := c.Common()
+			isStartup := false
+			var recv ssa.Value
+			if cc.IsInvoke() && cc.Method.Name() == "Startup" && types.Implements(cc.Value.Type(), si.Underlying().(*types.Interface)) {
+				isStartup, recv = true, cc.Value
+			} else if f := sCallee(c); f != nil && startups[f] && len(cc.Args) > 0 {
+				isStartup, recv = true, cc.Args[0]
+			}
+			if !isStartup {
+				continue
+			}
+			ncalls++
+			ci := c.(ssa.Instruction)
+			cyc := cycleThrough(ci.Block())
+			if cyc == nil {
+				continue
+			}
+			// the receiver changes with the iteration if it is computed inside the cycle
+			inside := false
+			for _, root := range provenance(recv, provOpts{}) {
+				if ri, ok := root.(ssa.Instruction); ok && cyc[ri.Block()] {
+					inside = true
+				}
+			}
+			if !inside {
+				bad = append(bad, fmt.Sprintf("%s: Startup is called in a loop on the same server object (%s): the first run has already cut the +tls marker off the configured address (and cleared the password), so a later run — after a bind failure, say — starts a clear-text listener for an address configured with TLS", w.Pos(c.Pos()), ssaFuncKey(fn)))
+			}
+		}
+	}
+	r.Check(len(bad) == 0 && ncalls > 0, rule, key, "-", fmt.Sprintf("%d Startup implementation(s) rewrite their configured address in place (e.g. %s); none of the %d call(s) of Startup repeats on one object", len(mutating), mutating[0], ncalls), strings.Join(bad, "; ")+mapStr(ncalls == 0, "no call of Startup found"))
+}
+
+// c11CodecCommitFollowsItsProbe: R11.13 — the autodetection steps of the client try codecs against the server and
+// store the one to use into the serializer. (1) A codec is never stored on a path on which its own probe has just
+// failed (the condition `if err := probe(c); err != nil { use c }` is the inverse of what is meant). (2) Every
+// way out of such a step — unless the connection was found closed — has stored some codec: the next step
+// dereferences it (`Encoder.Name()`), a nil codec there is a crash of the client that only the answers of the
+// DNS path decide.
+func c11CodecCommitFollowsItsProbe(w *World, r *Report) { ruleCodecCommitFollowsItsProbe(w, r, "R11.13") }
+
+func ruleCodecCommitFollowsItsProbe(w *World, r *Report, rule string) {
+	cdc := w.Named("internal/streams/dns", "ClientDnsConnection")
+	hs := w.SSAFunc(methodOf(cdc, "Handshake"))
+	if cdc == nil || hs == nil {
+		r.Undecided(rule, "anchor", "-", "anchor unresolved: ClientDnsConnection.Handshake")
+		return
+	}
+	isEncoderField := func(fa *ssa.FieldAddr) bool {
+		fv := fieldVarOf(fa)
+		if fv == nil || fv.Name() != "Encoder" || fv.Pkg() == nil || !strings.HasSuffix(fv.Pkg().Path(), "/internal/streams/dns/util") {
+			return false
+		}
+		return true
+	}
+	sameCodec := func(a, b ssa.Value) bool {
+		if a == b {
+			return true
+		}
+		ga := func(v ssa.Value) *ssa.Global {
+			for _, root := range provenance(v, provOpts{}) {
+				if u, ok := root.(*ssa.UnOp); ok {
+					if g, ok := u.X.(*ssa.Global); ok {
+						return g
+					}
+				}
+			}
+			return nil
+		}
+		x, y := ga(a), ga(b)
+		return x != nil && x == y
+	}
+	n := 0
+	for _, c := range callsIn(hs) {
+		step := c.Common().StaticCallee()
+		if step == nil || !inModule(step) || len(step.Blocks) == 0 || step.Signature.Results().Len() != 0 {
+			continue
+		}
+		// a detection step: stores a codec into the serializer and makes exchanges with the server
+		stores := false
+		allInstrs(step, func(in ssa.Instruction) {
+			if st, ok := in.(*ssa.Store); ok {
+				if fa, ok := st.Addr.(*ssa.FieldAddr); ok && isEncoderField(fa) {
+					stores = true
+				}
+			}
+		})
+		if !stores {
+			continue
+		}
+		n++
+		key := "step:" + ssaFuncKey(step) + "|codec-commit"
+		isStore := func(in ssa.Instruction) bool {
+			st, ok := in.(*ssa.Store)
+			if !ok {
+				return false
+			}
+			fa, ok := st.Addr.(*ssa.FieldAddr)
+			return ok && isEncoderField(fa)
+		}
+		bad := ""
+		npaths := 0
+		okp := enumPaths(step, nil, isStore, nil, func(e pathExit) {
+			if _, isRet := e.Last.(*ssa.Return); !isRet || bad != "" {
+				return
+			}
+			npaths++
+			closed := false
+			for v, t := range e.State.Facts {
+				if cl, ok := v.(*ssa.Call); ok && t {
+					if f := sCallee(cl); f != nil && f.Name() == "Closed" {
+						closed = true
+					}
+				}
+			}
+			if len(e.State.Events) == 0 {
+				if !closed {
+					bad = fmt.Sprintf("%s: the detection step can return without having stored any codec (and without the connection being closed): the step that follows calls a method on the codec — with a fresh client that is a nil dereference, a crash that only the answers of the DNS path decide", w.Pos(e.Last.Pos()))
+				}
+				return
+			}
+			// (1a) per path, for codecs named by a package-level variable (the same codec in every iteration): the value
+			// that reaches the store — through assignments to a local such as `activeEncoder = enc.RawEncoding` — is the
+			// codec whose probe failed on this path
+			last := e.State.Events[len(e.State.Events)-1].(*ssa.Store)
+			codec := e.State.Resolve(last.Val)
+			for v, t := range e.State.Facts {
+				x, eqNil, ok := nilTest(v)
+				if !ok || t == eqNil || !isErrorType(x.Type()) {
+					continue
+				}
+				for _, root := range provenance(x, provOpts{}) {
+					pc, ok := root.(*ssa.Call)
+					if !ok {
+						continue
+					}
+					if sc := pc.Call.StaticCallee(); sc == nil || !inModule(sc) {
+						continue
+					}
+					for _, a := range pc.Call.Args {
+						if ga, gb := codecGlobal(e.State.Resolve(a)), codecGlobal(codec); ga != nil && ga == gb {
+							bad = fmt.Sprintf("%s: the codec %s is stored on a path on which its own probe (%s) has just FAILED: the client settles on a codec it has seen not to work, and every answer after the handshake is decoded with it", w.Pos(last.Pos()), ga.Name(), w.Pos(pc.Pos()))
+						}
+					}
+				}
+			}
+		})
+		// (1b) by dominance, on the value the store names itself (a value carried round a loop by a phi is another
+		// iteration's codec, not the one whose probe failed last)
+		allInstrs(step, func(in ssa.Instruction) {
+			st, ok := in.(*ssa.Store)
+			if !ok || !isStore(in) || bad != "" {
+				return
+			}
+			var probe *ssa.Call
+			probeErrTest := func(wantEq bool) func(v ssa.Value) bool {
+				return func(v ssa.Value) bool {
+					x, eqNil, ok := nilTest(v)
+					if !ok || eqNil != wantEq || !isErrorType(x.Type()) {
+						return false
+					}
+					for _, root := range provenance(x, provOpts{}) {
+						pc, ok := root.(*ssa.Call)
+						if !ok {
+							continue
+						}
+						if sc := pc.Call.StaticCallee(); sc == nil || !inModule(sc) {
+							continue
+						}
+						for _, a := range pc.Call.Args {
+							if sameCodec(a, st.Val) {
+								probe = pc
+								return true
+							}
+						}
+					}
+					return false
+				}
+			}
+			// the failing edge: `err == nil` false, or `err != nil` true
+			failed := dominatedByCond(step, st, probeErrTest(true), false) || dominatedByCond(step, st, probeErrTest(false), true)
+			if failed && probe != nil {
+				bad = fmt.Sprintf("%s: the codec %s is stored on the branch on which its own probe (%s) has just FAILED: the client settles on a codec it has seen not to work, and every answer after the handshake is decoded with it", w.Pos(st.Pos()), describeValue(w, st.Val), w.Pos(probe.Pos()))
+			}
+		})
+		if !okp {
+			r.Undecided(rule, key, w.Pos(step.Pos()), "path budget exceeded")
+			continue
+		}
+		r.Check(bad == "", rule, key, w.Pos(step.Pos()), fmt.Sprintf("%d way(s) out, each with a codec stored (or the connection closed), none storing a codec whose probe failed on that path", npaths), bad)
+	}
+	if n == 0 {
+		r.Undecided(rule, "steps", "-", "no codec detection step found in Handshake (anchors moved?)")
+	}
+}
+
+// codecGlobal: the package-level variable a codec value is loaded from (nil if it is not one).
+func codecGlobal(v ssa.Value) *ssa.Global {
+	for _, root := range provenance(v, provOpts{}) {
+		if u, ok := root.(*ssa.UnOp); ok {
+			if g, ok := u.X.(*ssa.Global); ok {
+				return g
+			}
+		}
+	}
+	return nil
 }
